@@ -5,6 +5,8 @@ V = os.path.dirname(os.path.dirname(os.path.abspath(__file__)))
 ids = [json.loads(l)['id'] for l in open(os.path.join(V, 'properties.jsonl'))]
 TECH = 'bounded symbolic execution of the real code (clang IR -> ll2c -> CBMC 6.11 / SAT), counterexamples replayed on a g++ ASan build'
 CLAIMED = {
+    'C02': ('3.C02', 'TestRegistry::runAllTests with the real filter matching is run symbolically over 2 (thorough: 3) tests with symbolic group/name strings (<=2 bytes), normal/ignored mix, 0..2 group and 0..2 name filters with symbolic text and strict/invert flags, run-ignored on/off: executions, run/ignored/filtered-out counters and balanced group/test notifications equal a reference selection; shuffle (arbitrary seed, every rand() result symbolic), reverse and their composition are shown to be permutations of 4 (thorough: 5) tests.',
+            'setjmp replaced by a plain call (C01 covers it); test body replaced by an execution counter; longer names / larger registries are outside the bound'),
     'C01': ('3.C01', 'A scripted test runs through the real runOneTest / runOneTestInCurrentProcess / Utest::run / PlatformSpecificSetJmp code in both builds (with and without C++ exceptions; setjmp/longjmp and Itanium EH modelled by the translator). The solver decides, for every script of 2 statements per phase x {continue, C++-style fail, C-style fail, throw int}, every plugin error pattern and every initial jump depth 0..7: body iff setup completed, teardown always, nothing after a failing statement, each failure recorded and printed once with its line, context and jump-buffer depth restored (inductive: covers arbitrarily long runs of failing tests). Plus: summary line OK/Errors and counts for all 64-bit counters; runner return value == 0 iff every repetition OK (repeat <= 4).',
             'll2c --nlx model of setjmp/longjmp/EH (longjmp runs no destructors); std::exception arm not encoded (CPPUTEST_USE_STD_CPP_LIB=0); rethrow (-e) off; totals >= 2^31 outside the claim'),
     'C09': ('3.C09', 'MockNamedValue::equals is run symbolically for all 36 ordered integer type pairs with both 64-bit values free (oracle: sign-aware mathematical equality, both directions), for bool/pointer/function-pointer/string/buffer/double values and all cross-type pairs; all 36 stored-type x getter combinations are checked to return exactly the stored integer or fail the test.',
